@@ -99,6 +99,8 @@ type bTheir struct {
 	NodeKey         string `json:"nodeKey"`
 	MultiSigKey     string `json:"multiSigKey"`
 	UnitsFilled     uint32 `json:"unitsFilled"`
+	// order version of the counterparty's order (ServerAsk/ServerBid.Version)
+	Version uint32 `json:"version"`
 }
 
 type bMatched struct {
@@ -181,6 +183,8 @@ type bCase struct {
 	MarketOrder []uint32 `json:"marketOrder"`
 	Oracle      bOracle  `json:"oracle"`
 	Devs   []string `json:"devs"` // harness only: deviations applied
+	// harness only: the (hostile) auctioneer settles with another premium formula (0 = the definition)
+	PremiumAlt int `json:"premiumAlt"`
 	// harness only: the orders live in a REAL clientdb store; orders with units > unfulfilled
 	// got there through an earlier staged + completed batch. env.orders of the op line is
 	// what that store returns, the oracles judge by the terms the trader submitted.
@@ -568,7 +572,7 @@ func (c *bCase) prepareMsg() *auctioneerrpc.OrderMatchPrepare {
 				t := &mo.Asks[k]
 				r.MatchedAsks = append(r.MatchedAsks, &auctioneerrpc.MatchedAsk{
 					Ask: &auctioneerrpc.ServerAsk{
-						Details: bServerOrder(t), LeaseDurationBlocks: t.Duration, Version: 6,
+						Details: bServerOrder(t), LeaseDurationBlocks: t.Duration, Version: t.Version,
 					},
 					UnitsFilled: t.UnitsFilled,
 				})
@@ -577,7 +581,7 @@ func (c *bCase) prepareMsg() *auctioneerrpc.OrderMatchPrepare {
 				t := &mo.Bids[k]
 				r.MatchedBids = append(r.MatchedBids, &auctioneerrpc.MatchedBid{
 					Bid: &auctioneerrpc.ServerBid{
-						Details: bServerOrder(t), LeaseDurationBlocks: t.Duration, Version: 6,
+						Details: bServerOrder(t), LeaseDurationBlocks: t.Duration, Version: t.Version,
 						SelfChanBalance: t.SelfChanBalance,
 					},
 					UnitsFilled: t.UnitsFilled,
@@ -630,7 +634,8 @@ func (a *bAcct) nextScript(sv poolscript.Version, expiry uint32) (string, error)
 	var secret [32]byte
 	sb, _ := hex.DecodeString(a.Secret)
 	copy(secret[:], sb)
-	s, err := poolscript.AccountScript(sv, expiry, tk, ak, poolscript.IncrementKey(bk), secret)
+	// independent derivation (batch_script.go) – never through poolscript
+	s, err := bIndepNextAccountScript(uint8(sv), expiry, tk, ak, bk, secret)
 	if err != nil {
 		return "", err
 	}
@@ -665,6 +670,36 @@ func bFundScriptOf(taproot bool, ours, theirs string) *string {
 	}
 	bFundCache[ck] = res
 	return res
+}
+
+// bSpecPremium: the lump-sum premium by its definition – amount times the per-block rate
+// in parts per billion (float64, as published) times the number of blocks, truncated.
+// Written out here; does not call the repository's LumpSumPremium / PerBlockPremium.
+func bSpecPremium(amt int64, rate, dur uint32) int64 {
+	perBlock := float64(float64(amt)*float64(rate)) / 1e9
+	return int64(float64(perBlock * float64(dur)))
+}
+
+// bAltPremium: premium formulas a careless or hostile counterpart might use instead
+// (kind 0 = the definition).
+func bAltPremium(kind int, amt int64, rate, dur uint32) int64 {
+	switch kind {
+	case 1: // exact integer arithmetic
+		v := new(big.Int).Mul(big.NewInt(amt), big.NewInt(int64(rate)))
+		v.Mul(v, big.NewInt(int64(dur)))
+		v.Quo(v, big.NewInt(1_000_000_000))
+		if !v.IsInt64() {
+			return bSpecPremium(amt, rate, dur)
+		}
+		return v.Int64()
+	case 2: // per-block premium truncated to whole satoshis first
+		return int64(float64(amt)*float64(rate)/1e9) * int64(dur)
+	case 3: // rate scaled by the duration in the rate's own 32-bit type first
+		return int64(float64(amt) * float64(rate*dur) / 1e9)
+	case 4: // single precision
+		return int64(float32(amt) * float32(rate) / 1e9 * float32(dur))
+	}
+	return bSpecPremium(amt, rate, dur)
 }
 
 func bPremiumOf(amt int64, rate, dur uint32) int64 {
@@ -1155,6 +1190,11 @@ func (c *bCase) allMatches() []bMatchRef {
 // property's text; also returns the number of channels. ok=false if the
 // account has no matched order.
 func (c *bCase) specEndingBalance(a *bAcct) (*big.Int, int64, bool) {
+	return c.endingBalanceWith(a, bSpecPremium)
+}
+
+// endingBalanceWith: the balance equation with a given premium function.
+func (c *bCase) endingBalanceWith(a *bAcct, bPremiumOf func(int64, uint32, uint32) int64) (*big.Int, int64, bool) {
 	bal := bigI(a.Value)
 	var n int64
 	involved := false
@@ -1332,7 +1372,7 @@ func (c *bCase) oracleC02() (string, string) {
 			if bSupportsUpgrade(c.Msg.Version) && newVer > ver {
 				ver = newVer
 			}
-			if account.ValidateVersion(account.Version(ver)) != nil {
+			if ver != 0 && ver != 1 && ver != 2 { // the three account versions that exist
 				return fmt.Sprintf("account output for unsupported account version %d accepted", ver), "C02/new-version"
 			}
 			// (an unchanged timelock is the account's own, bounded when the
@@ -1340,7 +1380,7 @@ func (c *bCase) oracleC02() (string, string) {
 			if exp != a.Expiry && uint64(exp) > uint64(c.Best)+uint64(bMaxAccountExpiry) {
 				return fmt.Sprintf("account output timelock %d is more than the maximum account lifetime after height %d", exp, c.Best), "C02/new-expiry"
 			}
-			s, err := a.nextScript(account.Version(ver).ScriptVersion(), exp)
+			s, err := a.nextScript(bScriptVersion(uint8(ver)), exp)
 			if err != nil || s != out.Script {
 				return "account output does not pay to the account's next script", "C02/script"
 			}
